@@ -615,8 +615,9 @@ impl<'a> Ctx<'a> {
 		for (name, v) in variants {
 			let mut oo = o.clone();
 			// sizes incl. the largest a payload table can declare
-			oo.unk_sizes.insert(0x40, [1u16, 7, 600, 65535][((o.seed >> 3) % 4) as usize]);
-			oo.unk_sizes.insert(0x7F, [600u16, 65534, 1, 7][((o.seed >> 3) % 4) as usize]);
+			let pick = (crate::util::fnv(&self.built.bytes) % 4) as usize;
+			oo.unk_sizes.insert(0x40, [1u16, 7, 600, 65535][pick]);
+			oo.unk_sizes.insert(0x7F, [600u16, 65534, 1, 7][pick]);
 			let with = crate::gen::build_file(self.db, &self.beh.occ, &v, &table, self.beh.fin.gactual, self.beh.meta == "some", 0, &oo);
 			let g = match real::read_slp_noopts(&with.bytes) {
 				Outcome::Ok(g) => g,
